@@ -48,13 +48,14 @@ def unit_spec(u):
 
 def run_task(task):
     """worker: one (unit, mode) symbolic run -> picklable summary"""
-    spec, mode, budget = task
+    spec, mode, budget, shard = task
     t0 = time.time()
-    out = dict(unit_spec=spec, mode=mode, obligations=[], unsupported=[], crash=None)
+    out = dict(unit_spec=spec, mode=mode, shard=shard, obligations=[], unsupported=[], crash=None)
     try:
         from pyvc.unit import run_unit_symbolic
         mod, cls = spec.split(':')
         unit = getattr(importlib.import_module(mod), cls)()
+        unit.shard = shard
         out.update(name=unit.name, target=unit.target, kind=unit.kind, prop=unit.prop)
         res = run_unit_symbolic(unit, mode, deadline=time.time() + budget)
         for o in res.obligations:
@@ -135,8 +136,10 @@ def main(argv=None):
     tasks = []
     for u in units:
         for mode in u.modes:
-            tasks.append((unit_spec(u), mode, budget))
+            for sh in range(u.shards):
+                tasks.append((unit_spec(u), mode, budget, sh))
     results = []
+    tasks.sort(key=lambda t: -getattr(importlib.import_module(t[0].split(':')[0]), t[0].split(':')[1]).shards)
     if tasks:
         ctx = multiprocessing.get_context("fork")
         with ctx.Pool(min(args.jobs, len(tasks))) as pool:
@@ -236,7 +239,7 @@ def main(argv=None):
             else:
                 if o.get('values') is None:
                     continue
-                rec.update(kind='unit', unit=r['unit_spec'], function=r['target'], values=o['values'])
+                rec.update(kind='unit', unit=r['unit_spec'], function=r['target'], values=o['values'], shard=r.get('shard', 0))
             tried += 1
             fn = os.path.join(rdir, "%s.json" % hashlib.sha1(("%s|%s|%d" % (name, mode, tried)).encode()).hexdigest()[:12])
             rec['rerun'] = "%s %s-m pyvc.replay %s   (PYTHONPATH=%s)" % (NATIVE_PY, '-O ' if mode == 'O' else '', fn,
